@@ -80,3 +80,41 @@ def chrom_names(col):
         raw = np.atleast_1d(np.asarray(col.raw()))
         return [labels[i] for i in raw.tolist()]
     return [str(x) for x in col.tolist()]
+
+
+def lazy_selection(build, rows, rng, filler):
+    """An object equal to build(rows) that is the direct, not yet flattened result of an indexing step on a bigger object.
+
+    build(list of rows) -> row-indexable object (encoded ragged array, RaggedArray, table); filler() -> one extra row.
+    Library functions handed such a selection see lazy views (row offsets into a parent buffer) instead of freshly built, contiguous
+    data; nothing in the harness looks at the selection before the function under observation does."""
+    import numpy as np
+    rows = list(rows)
+    n = len(rows)
+    kind = rng.choice(["reverse", "fancy", "mask", "tail", "step"])
+    if n == 0:
+        return build([filler()])[:0], "empty-slice"
+    if kind == "reverse":
+        return build(rows[::-1])[::-1], kind
+    if kind == "tail":
+        k = rng.randint(1, 3)
+        return build([filler() for _ in range(k)] + rows)[k:], kind
+    if kind == "step":
+        big = []
+        for x in rows:
+            big += [x, filler()]
+        return build(big)[::2], kind
+    if kind == "mask":
+        big, mask = [], []
+        for x in rows:
+            while rng.random() < 0.4:
+                big.append(filler()); mask.append(False)
+            big.append(x); mask.append(True)
+        if rng.random() < 0.5:
+            big.append(filler()); mask.append(False)
+        return build(big)[np.array(mask, dtype=bool)], kind
+    order = list(range(n))
+    rng.shuffle(order)
+    big = [rows[i] for i in order] + [filler() for _ in range(rng.randint(0, 2))]
+    pos = {orig: p for p, orig in enumerate(order)}
+    return build(big)[np.array([pos[i] for i in range(n)], dtype=int)], "fancy"
